@@ -1134,6 +1134,37 @@ fn check_transparent(c: &mut Ctx, a: &Acct) {
             }
             Err(p) => c.viol(&format!("bip44:panic:{}", panic_class(&p)), p, &rp),
         }
+        // paths whose PREFIX is not m/44'/coin'/account' for this account must be refused: a key returned
+        // for such a path would be attributed to a path it does not belong to
+        {
+            let good = [(44u32, true), (coin_type(a.net), true), (a.account, true), (scope, false), (idx, false)];
+            let mut bad_paths: Vec<(String, Vec<(u32, bool)>)> = vec![];
+            for i in 0..5 {
+                let mut v = good.to_vec();
+                v[i].1 = !v[i].1;
+                bad_paths.push((format!("hardened-bit-flipped:component-{i}"), v));
+            }
+            for (i, delta) in [(0usize, 1u32), (1, 1), (2, 1)] {
+                let mut v = good.to_vec();
+                v[i].0 = v[i].0.wrapping_add(delta) & 0x7fff_ffff;
+                bad_paths.push((format!("wrong-value:component-{i}"), v));
+            }
+            // (the sub-path below the account is deliberately free: other scopes, shorter and longer
+            // paths are derived as asked - only the account prefix is enforced)
+            bad_paths.push(("prefix-only-two-components".into(), good[..2].to_vec()));
+            for (why, comps) in bad_paths {
+                let path: Vec<bip32::ChildNumber> = comps.iter().filter_map(|(n, h)| bip32::ChildNumber::new(*n, *h).ok()).collect();
+                if path.len() != comps.len() {
+                    continue;
+                }
+                c.r.count("bip32_malformed_paths_checked", 1);
+                match guard(|| apub.derive_pubkey_at_bip32_path(&P(a.net), AccountId::try_from(a.account).unwrap(), &path).ok().map(|k| k.serialize())) {
+                    Ok(None) => {}
+                    Ok(Some(k)) => c.viol(&format!("bip32-path-accepted:{why}"), format!("derive_pubkey_at_bip32_path accepted {comps:?} for account {} and returned {}", a.account, hexs(&k)), &rp),
+                    Err(p) => c.viol(&format!("bip32-path:panic:{}", panic_class(&p)), p, &rp),
+                }
+            }
+        }
         // gap-limit address lists: every generated address is the independent one for its index
         let end = NonHardenedChildIndex::from_index(idx).unwrap().saturating_add(GapLimits::default().limit_for(tscope).unwrap_or(3).min(4));
         let req = [UnifiedAddressRequest::AllAvailableKeys, UnifiedAddressRequest::ALLOW_ALL, UnifiedAddressRequest::unsafe_custom(Omit, Require, Require)][c.rng.gen_range(0..3)];
@@ -1332,6 +1363,51 @@ fn main() {
             *$c.spent.entry($name).or_default() += t0.elapsed();
             v
         }};
+    }
+    // The documented algebra of receiver requirements, exhaustively: intersection chooses the
+    // stronger requirement, Require and Omit conflict, Omit wins over Allow, and it is symmetric; the
+    // request-level intersection is componentwise and needs a shielded receiver to stay allowed.
+    if args.shard == 0 {
+        use zcash_keys::keys::ReceiverRequirements;
+        let model = |a: ReceiverRequirement, b: ReceiverRequirement| -> Option<ReceiverRequirement> {
+            match (a, b) {
+                (Require, Omit) | (Omit, Require) => None,
+                (Require, _) | (_, Require) => Some(Require),
+                (Omit, _) | (_, Omit) => Some(Omit),
+                _ => Some(Allow),
+            }
+        };
+        for a in REQS {
+            for b in REQS {
+                c.r.evals(1);
+                c.r.count("requirement_intersections_checked", 1);
+                let got = guard(|| a.intersect(b).ok());
+                match got {
+                    Ok(g) if g == model(a, b) => {}
+                    Ok(g) => c.viol("requirement-intersect-differs-from-documentation", format!("{}.intersect({}) = {:?}, documented {:?}", req_name(a), req_name(b), g.map(req_name), model(a, b).map(req_name)), &json!({"a": req_name(a), "b": req_name(b)})),
+                    Err(p) => c.viol(&format!("requirement-intersect:panic:{}", panic_class(&p)), p, &json!({"a": req_name(a), "b": req_name(b)})),
+                }
+            }
+        }
+        let triples: Vec<(ReceiverRequirement, ReceiverRequirement, ReceiverRequirement)> = (0..27).map(|x| (REQS[x / 9], REQS[(x / 3) % 3], REQS[x % 3])).collect();
+        for &(o1, s1, t1) in &triples {
+            for &(o2, s2, t2) in &triples {
+                let (Ok(r1), Ok(r2)) = (ReceiverRequirements::new(o1, s1, t1), ReceiverRequirements::new(o2, s2, t2)) else { continue };
+                c.r.evals(1);
+                c.r.count("request_intersections_checked", 1);
+                let want = match (model(o1, o2), model(s1, s2), model(t1, t2)) {
+                    (Some(o), Some(sp), Some(t)) if !(o == Omit && sp == Omit) => Some((o, sp, t)),
+                    _ => None,
+                };
+                let got = guard(|| r1.intersect(&r2).ok().map(|r| (r.orchard(), r.sapling(), r.p2pkh())));
+                let rp = json!({"left": [req_name(o1), req_name(s1), req_name(t1)], "right": [req_name(o2), req_name(s2), req_name(t2)]});
+                match got {
+                    Ok(g) if g == want => {}
+                    Ok(g) => c.viol("request-intersect-differs-from-documentation", format!("got {:?}, documented {:?}", g.map(|(a, b, cc)| (req_name(a), req_name(b), req_name(cc))), want.map(|(a, b, cc)| (req_name(a), req_name(b), req_name(cc)))), &rp),
+                    Err(p) => c.viol(&format!("request-intersect:panic:{}", panic_class(&p)), p, &rp),
+                }
+            }
+        }
     }
     let n_accounts = args.pick(400u64, 40_000);
     let mut prev: Option<Acct> = None;
